@@ -49,7 +49,8 @@ fn main() {
             let workers = arg_after(&args, "--workers").and_then(|s| s.parse().ok()).or_else(|| std::env::var("VERIF_WORKERS").ok().and_then(|s| s.parse().ok())).unwrap_or(16);
             let only: Option<Vec<u64>> = arg_after(&args, "--only").map(|s| s.split(',').filter_map(|x| x.parse().ok()).collect());
             let runs = only.as_ref().map(|v: &Vec<u64>| v.len() as u64).unwrap_or(runs);
-            let cfg = coord::CheckCfg { property, tier, runs, workers, determinism: false, collect_codes: false, only, pin_workers: false };
+            let collect_codes = property == "C04";
+            let cfg = coord::CheckCfg { property, tier, runs, workers, determinism: false, collect_codes, only, pin_workers: false };
             coord::check(&cfg)
         }
         "determinism" => {
